@@ -34,7 +34,7 @@
 //! that shape the predicate is: each partition returns ≤ min(k, n_p) of its own rows, sorted, no
 //! duplicates, and the union of the partitions contains a valid (tie-aware) global top-k.
 //!
-//! Genuine findings (open entries in /verif/known_findings.json, regression cases under
+//! Genuine findings (now FIXED in /repo — commit 7d7b2775 — and no longer excluded; entry in /verif/known_findings.json, regression cases under
 //! /verif/regressions/C08/c08/, proposed repair /verif/fixes/C08-topk-filter-sort-order-mismatch.diff —
 //! verified with mutrun: seeds 0-2 pass with the exclusions switched off through VF_C08_NO_KNOWN=1):
 //!   1. `topk-filter:struct-key:child-null-order` — TopK (SortExec + fetch) pre-filters every later
@@ -46,7 +46,6 @@
 //!      Observation (not a known finding, SQL-equal values): the same predicate treats -0.0 = 0.0
 //!      while the sort order separates them (`ORDER BY x DESC` → 0.0, -0.0; `… LIMIT 1` → -0.0);
 //!      -0.0 is therefore not generated on the TopK path. The proposed repair covers it as well.
-//! The generator excludes exactly this shape (`known_signature`, counted in `known_excluded`).
 //!
 //! Sensitivity probes (mutrun, quick tier, all detected):
 //!   * topk/mod.rs `batch_prefix_exceeds_heap_boundary`: `>` → `>=` (early termination on an equal
@@ -63,6 +62,14 @@
 //!     `topk:kth-row-null-on-nulls-{last,first}-prefix-key` (~100 each per quick run). Now VIOLATION
 //!     "position 85 of the top-111 holds keys [Null, Null, 2] … reference [Null, Null, 1]" after 892
 //!     cases; unchanged tree exits 0 on seeds 0-4 and 21-24.
+//!   * seeded defect /verif/seeded/C28-a (sorts/cursor.rs `CursorValues for StringViewArray::compare`:
+//!     inline-key fast path taken when only ONE side has no data buffers): first MISSED — the string
+//!     pool had no short (≤ 12 byte) value sharing a 4+ byte prefix with a long one. Pools for
+//!     utf8 / utf8view / dictionary and binary / binaryview now hold "item", "item-1", "item-2"
+//!     next to "item-10-of-the-long-kind", "item-1-of-the-long-kind!", … (long values already at
+//!     domain 5, so all-short batches meet batches with buffers); BinaryView added to the key types.
+//!     Now VIOLATION "output not ordered: item-10-of-the-long-kind before item-1" after 1030 cases;
+//!     unchanged tree exits 0 on seeds 0-4 and 41 (C06 and C08).
 //!
 //! Deviations from DESIGN.md: fetch = 0 is only generated for the paths that accept it
 //! (SortPreservingMergeExec, pass-through SortExec, PartialSortExec); `SortExec::with_fetch(Some(0))`
@@ -127,7 +134,7 @@ pub struct Case {
     pub jitter: u8,
 }
 
-const KEY_TYPES: [ColType; 14] = [
+const KEY_TYPES: [ColType; 15] = [
     ColType::I8,
     ColType::I32,
     ColType::I64,
@@ -137,6 +144,7 @@ const KEY_TYPES: [ColType; 14] = [
     ColType::Utf8,
     ColType::Utf8View,
     ColType::Binary,
+    ColType::BinaryView,
     ColType::DictUtf8,
     ColType::Bool,
     ColType::Date32,
@@ -539,20 +547,6 @@ impl Property for C08 {
     }
     fn run(&self, case: &Case) -> CaseResult {
         run_case(case)
-    }
-    fn known_signature(&self, case: &Case) -> Option<String> {
-        // open finding: TopK's dynamic filter compares struct keys with arrow's fixed nested-NULL
-        // order instead of the requested one (wrong for ASC NULLS LAST and DESC NULLS FIRST)
-        // VF_C08_NO_KNOWN=1 (used when verifying the proposed repair) switches the exclusion off
-        if std::env::var_os("VF_C08_NO_KNOWN").is_some() {
-            return None;
-        }
-        if let Op::Sort { fetch: Some(f), presorted, .. } = &case.op {
-            if *f >= 1 && (*presorted as usize) < case.keys.len() && case.keys.iter().any(|k| k.ty == ColType::StructI32Utf8 && k.desc == k.nulls_first) {
-                return Some("topk-filter:struct-key:child-null-order".into());
-            }
-        }
-        None
     }
 }
 
